@@ -72,3 +72,25 @@ package kernel
 //@   loop 0 invariant [prefix] seq(key) == KeyPrefix(seq(snap), old(seq(sig.Signature)), publics, rangeindex + 1)
 //@   hint after Get [keyeq] seq(key) == CKey(KeyPrefix(seq(snap), old(seq(sig.Signature)), publics, len(publics)), threshold, sig.Mask)
 //@   loop 1 invariant [keyeq] seq(key) == CKey(KeyPrefix(seq(snap), old(seq(sig.Signature)), publics, len(publics)), threshold, sig.Mask)
+
+//@ -- the timestamp the certificate is checked at (one hard-coded mainnet snapshot is checked one minute earlier) and the pre-fork legacy
+//@ -- timestamp: the start of the node-operation window, (hour + 1 - KernelNodeAcceptTimeBegin) hours back
+//@ spec TsOf(s *common.Snapshot) int = s.Hash.String() == mainnetNodeRemovalHackSnapshotHash ? U64(s.Timestamp - 60000000000) : s.Timestamp
+//@ spec LegacyTs(node *Node, ts uint64) int = U64(ts - U64((HourOf(node, ts) + 1 - config.KernelNodeAcceptTimeBegin) * 3600000000000))
+//@ -- CertAt(chain, s, ts): the snapshot's certificate verifies against the key vector ConsensusKeys(round, ts) with THE threshold at ts
+//@ spec CertAt(chain *Chain, s *common.Snapshot, ts uint64) bool =
+//@     CertB(CKPrefix(chain, s.RoundNumber, ts, seq(s.Hash), seq(s.Signature.Signature)), ThresholdAt(chain.node, ts, true), s.Signature.Mask)
+
+//@ func (chain *Chain) verifyFinalization
+//@   property C09, C10
+//@   uses readsframe
+//@   requires chain != nil && NodeRep(chain.node) && s != nil && chain.node.cacheStore != nil
+//@   requires [inv] CacheInv(chain.node)
+//@   modifies ghost cachever
+//@   hint at "legacyIDs, legacyPublics := chain.ConsensusKeys(s.RoundNumber, legacyTimestamp)" [legacy-ts] timestamp == TsOf(s) &&
+//@       legacyTimestamp == LegacyTs(chain.node, timestamp) && AcceptHour(chain.node, timestamp) && !Predictive(chain.node, timestamp)
+//@   ensures [inv] CacheInv(chain.node)
+//@   ensures [shape] result1 ==> s.Version == common.SnapshotVersionCommonEncoding && s.Signature != nil && s.Signature.Mask != 0 && TsOf(s) >= chain.node.Epoch
+//@   ensures [signers] result1 ==> len(result0) == crypto.PopUpTo(s.Signature.Mask, 64) && len(result0) > 0
+//@   ensures [cert] result1 ==> old(CertAt(chain, s, TsOf(s))) ||
+//@       (!Predictive(chain.node, TsOf(s)) && AcceptHour(chain.node, TsOf(s)) && old(CertAt(chain, s, LegacyTs(chain.node, TsOf(s)))))
